@@ -154,6 +154,13 @@ def generate(seed, tier):
         elif k in ("len", "query"):
             op["g"] = gi()
             op["t"] = pat()
+            if k == "query" and g.chance(0.4):
+                free = [i for i in range(3) if op["t"][i] is None]
+                if free:
+                    i = g.choice(free)
+                    op["ib"] = [i, g.pick(SUBS) if i == 0 else g.pick(PREDS) if i == 1 else g.pick(objs)]
+            if k == "query" and g.chance(0.3):
+                op["prefix"] = True
         elif k == "add-bnode":
             op["t"], op["g"] = [["b", "x1"], g.pick(PREDS), g.pick(objs)], gi()
         ops.append(op)
@@ -600,17 +607,30 @@ def _execute(trace, ctx):
             t, gk = op["t"], gkey(op["g"])
             from sim.sparqlref import r_term
 
-            patt = " ".join(r_term(x) if x is not None else "?v%d" % i for i, x in enumerate(t))
+            def rt(x):
+                if op.get("prefix") and x[0] == "u" and x[1].startswith(EX) and x[1][len(EX) :].isalnum():
+                    return "exq:" + x[1][len(EX) :]
+                return r_term(x)
+
+            patt = " ".join(rt(x) if x is not None else "?v%d" % i for i, x in enumerate(t))
             qtext = f"SELECT * WHERE {{ {patt} }}" if None in t else f"ASK {{ {patt} }}"
+            ib = op.get("ib")
+            kwargs = {}
+            if ib:
+                from rdflib import Variable
+
+                kwargs["initBindings"] = {Variable("v%d" % ib[0]): T(ib[1])}
+            if op.get("prefix"):
+                kwargs["initNs"] = {"exq": EX}
 
             def run():
-                res_ = handle(op["g"]).query(qtext)
+                res_ = handle(op["g"]).query(qtext, **kwargs)
                 if None not in t:
                     return bool(res_.askAnswer)
                 return sorted((tuple(sorted((str(kk), key(vv)) for kk, vv in row.asdict().items())) for row in res_), key=repr)
 
             def expect():
-                hits = [x for x in model.get(gk, set()) if match(t, x)]
+                hits = [x for x in model.get(gk, set()) if match(t, x) and (not ib or x[ib[0]] == skey(ib[1]))]
                 if None not in t:
                     return bool(hits)
                 return sorted((tuple(sorted(("v%d" % i, x[i]) for i in range(3) if t[i] is None)) for x in hits), key=repr)
